@@ -98,6 +98,14 @@ impl<'a, W: Write<Error = E>, E: Error> Writer<'a, W, E> {
     }
 }
 
+#[cfg(feature = "verif-hooks")]
+impl<W: Write<Error = E>, E: Error> Writer<'_, W, E> {
+    /// (dirty flag, last two bytes written)
+    pub fn __verif_state(&self) -> (bool, [u8; 2]) {
+        (self.dirty, self.last_bytes)
+    }
+}
+
 impl<W: Write<Error = E>, E: Error> uWrite for Writer<'_, W, E> {
     type Error = E;
 
